@@ -57,6 +57,7 @@ class HangDetected(BaseException):
 # the deterministic step limit below.
 OP_LIMIT = float(os.environ.get("VERIF_OP_LIMIT", "600"))
 PAR_LIMIT = float(os.environ.get("VERIF_PAR_LIMIT", "900"))
+SCAN_WALL = float(os.environ.get("VERIF_SCAN_WALL", "180"))  # one sequential scan; beyond it: no verdict for that key
 SEQ_STEP_LIMIT = int(os.environ.get("VERIF_SEQ_STEP_LIMIT", "20000000"))  # engine-scope line events per sequential op
 
 
@@ -335,7 +336,7 @@ class W09:
         cfgk = self.scanner_cfg.get(sid, 0)
         self.counters["scans"] += 1
         try:
-            with watchdog(OP_LIMIT):
+            with watchdog(SCAN_WALL):
                 if via_node:
                     from multidecoder.node import Node
 
@@ -343,7 +344,10 @@ class W09:
                 else:
                     t = sc.scan(data, d)
         except HangDetected:
-            raise Harness(f"stall: sequential scan of input {i} exceeded {OP_LIMIT}s of wall time without exceeding the step limit")
+            # slow code outside the scanning loop: no result for this key in this world, and the world stops
+            self.aborted = True
+            self.counters["scans_too_slow"] = self.counters.get("scans_too_slow", 0) + 1
+            return
         except kernel.StepLimitExceeded as e:
             self.aborted = True  # the scanner may be in any state now
             t = e
@@ -1171,14 +1175,18 @@ class W20:
         # these bytes is C01's subject, not C20's; without a tree there is nothing for the CLI to be
         # compared with and the scenario ends here.
         try:
-            with lib_run(w, -1), watchdog(OP_LIMIT):
+            with lib_run(w, -1), watchdog(SCAN_WALL):
                 tree = md.scan(data)
         except kernel.StepLimitExceeded:
             self.counters["library_scan_hit_step_limit"] = 1
             self.events.append({"nodes": 0, "skipped": "library scan exceeded the step limit (does not terminate on this input)"})
             return {"violations": self.violations, "counters": self.counters, "events": self.events}
         except HangDetected:
-            raise Harness("stall: library scan in C20 world")
+            # the scan neither finished nor hit the step limit within the wall budget: slow code
+            # outside the scanning loop (C01's subject, e.g. xortool's key search); no tree, no verdict
+            self.counters["library_scan_too_slow"] = 1
+            self.events.append({"nodes": 0, "skipped": "library scan exceeded the wall budget"})
+            return {"violations": self.violations, "counters": self.counters, "events": self.events}
         except Exception as ex:  # noqa: BLE001 - scan is not total on these bytes (C01's subject): no tree, nothing to compare
             self.counters["library_scan_raised"] = 1
             self.events.append({"nodes": 0, "skipped": f"library scan raised {type(ex).__name__}"})
